@@ -109,8 +109,8 @@ def _jobs(tier):
     for nm in names:
         for n in ((5, 8) if tier == 'quick' else (4, 6, 9)):
             jobs.append(Job('ind_%s_edge_n%d' % (nm, n), h_agree, {'name': nm, 'n': n, 'variant': 0, 'edge': True},
-                            {'max_paths': 60 if tier == 'quick' else 1000, 'max_job_seconds': 6 if tier == 'quick' else 120, 'max_decisions': 3000, 'stop_on_error': True,
-                             'max_path_seconds': 8 if tier == 'quick' else 120, 'prove_timeout_ms': 3000 if tier == 'quick' else 20000, 'feas_timeout_ms': 2000}))
+                            {'max_paths': 60 if tier == 'quick' else 200, 'max_job_seconds': 6 if tier == 'quick' else 20, 'max_decisions': 3000, 'stop_on_error': True,
+                             'max_path_seconds': 8 if tier == 'quick' else 20, 'prove_timeout_ms': 3000 if tier == 'quick' else 5000, 'feas_timeout_ms': 2000}))
     if tier != 'quick':
         for src in ('high', 'low', 'open', 'volume', 'hl2', 'hlc3', 'ohlc4'):
             for nm in ('sma', 'ema', 'wma', 'rsi', 'stddev', 'roc'):
